@@ -1,6 +1,14 @@
 package main
 
-// c15.go — C15 Style matching follows CSS Fonts §5.2 (R-STEPS: the narrowing chain only).
+// c15.go — C15 Style matching follows CSS Fonts §5.2 (R-STEPS narrowing chain, R-CUTS range boundaries, R-DEFAULTS).
+
+import (
+	"fmt"
+	"go/constant"
+	"go/token"
+
+	"golang.org/x/tools/go/ssa"
+)
 
 func init() {
 	register(&propDef{id: "C15", run: runC15})
@@ -10,6 +18,167 @@ func runC15(p *Prog, r *Report) {
 	r.Explain = append(r.Explain, "R-STEPS: retainsBestMatches returns filterByWeight(filterByStyle(filterByStretch(candidates, matchStretch(..)), matchStyle(..)), matchWeight(..)) where each matcher is evaluated on exactly the list its filter narrows and is asked for the corresponding field of the query after SetDefaults.")
 	ruleChain(p, r, "fontscan", "fontSet", "retainsBestMatches", fnRef{"font", "Aspect", "SetDefaults"}, []chainStep{
 		{"matchStretch", "filterByStretch", "Stretch"}, {"matchStyle", "filterByStyle", "Style"}, {"matchWeight", "filterByWeight", "Weight"}})
-	r.Assumptions = append(r.Assumptions, "the search orders inside matchStretch/matchStyle/matchWeight (boundaries at 400/500 and at StretchNormal) are comparisons on runtime floats and are NOT decided")
-	r.NotDecided = append(r.NotDecided, "the CSS search order inside each matcher", "non-emptiness and uniformity of the result")
+	r.Explain = append(r.Explain,
+		"R-CUTS: the requested value is touched only through comparisons; the cut points those comparisons with constants induce are exactly the specification's: matchWeight splits the request at 400 (400 in the upper part) and 500 (500 in the lower part) and the bolder candidate at 500 (inclusive below); matchStretch splits the request at StretchNormal (normal on the narrow-first side). The form of the comparisons (<, >=, switch) is irrelevant.",
+		"R-DEFAULTS: Aspect.SetDefaults assigns a field only on the edge where that field is zero, so a specified request reaches the matchers unchanged.")
+	ruleCuts(p, r, []cutSpec{
+		{fn: fnRef{"fontscan", "fontSet", "matchWeight"}, what: "requested weight", param: "query", expect: []cutPoint{{"400", true}, {"500", false}}, meaning: "requests below 400, in [400,500] and above 500 follow three different search orders"},
+		{fn: fnRef{"fontscan", "fontSet", "matchWeight"}, what: "candidate weights", param: "query", others: true, expect: []cutPoint{{"500", false}}, meaning: "for requests in [400,500] bolder candidates up to and including 500 are preferred"},
+		{fn: fnRef{"fontscan", "fontSet", "matchStretch"}, what: "requested stretch", param: "query", expect: []cutPoint{{"1", false}}, meaning: "requests up to and including normal try narrower first"},
+	})
+	ruleDefaultsOnly(p, r)
+	r.Assumptions = append(r.Assumptions, "the closest-candidate arithmetic inside the matchers (distance comparisons between runtime floats) is NOT decided")
+	r.NotDecided = append(r.NotDecided, "which of several lighter/bolder candidates is the closest", "non-emptiness and uniformity of the result")
+}
+
+// ---- R-CUTS: where a function splits the range of a value by comparisons with constants ---------------------------------
+
+type cutPoint struct {
+	c     string // exact constant
+	upper bool   // the constant itself belongs to the upper part (x < c / x >= c), else to the lower part (x <= c / x > c)
+}
+
+// cutsOn collects the cut points induced on the values selected by sel through order comparisons with constants.
+func cutsOn(f *ssa.Function, sel func(v ssa.Value) bool) map[cutPoint]token.Pos {
+	out := map[cutPoint]token.Pos{}
+	for _, b := range f.Blocks {
+		for _, in := range b.Instrs {
+			bo, ok := in.(*ssa.BinOp)
+			if !ok {
+				continue
+			}
+			op := bo.Op
+			var cst *ssa.Const
+			if c, ok := bo.Y.(*ssa.Const); ok && sel(stripConv(bo.X)) {
+				cst = c
+			} else if c, ok := bo.X.(*ssa.Const); ok && sel(stripConv(bo.Y)) {
+				cst = c
+				switch op { // c OP x  ==  x OP' c
+				case token.LSS:
+					op = token.GTR
+				case token.LEQ:
+					op = token.GEQ
+				case token.GTR:
+					op = token.LSS
+				case token.GEQ:
+					op = token.LEQ
+				}
+			}
+			if cst == nil || cst.Value == nil {
+				continue
+			}
+			var up bool
+			switch op {
+			case token.LSS, token.GEQ:
+				up = true
+			case token.LEQ, token.GTR:
+				up = false
+			default:
+				continue
+			}
+			out[cutPoint{constant.ToFloat(cst.Value).ExactString(), up}] = in.Pos()
+		}
+	}
+	return out
+}
+
+type cutSpec struct {
+	fn      fnRef
+	what    string // description of the selected values
+	param   string // parameter name ("" = every value that is not the parameter named in notParam)
+	others  bool
+	expect  []cutPoint
+	meaning string
+}
+
+func ruleCuts(p *Prog, r *Report, specs []cutSpec) {
+	const rule = "R-CUTS"
+	for _, s := range specs {
+		f := p.Func(s.fn.pkg, s.fn.recv, s.fn.name)
+		var prm *ssa.Parameter
+		for _, q := range f.Params {
+			if q.Name() == s.param {
+				prm = q
+			}
+		}
+		if prm == nil {
+			undecided("anchor: parameter %s of %s not found", s.param, p.FnName(f))
+		}
+		sel := func(v ssa.Value) bool { return v == ssa.Value(prm) }
+		if s.others {
+			sel = func(v ssa.Value) bool {
+				if v == ssa.Value(prm) {
+					return false
+				}
+				_, isC := v.(*ssa.Const)
+				return !isC
+			}
+		}
+		got := cutsOn(f, sel)
+		key := p.FnName(f) + "/" + s.what
+		r.Instance(rule, key)
+		want := map[cutPoint]bool{}
+		for _, e := range s.expect {
+			want[cutPoint{constant.ToFloat(constant.MakeFromLiteral(e.c, token.FLOAT, 0)).ExactString(), e.upper}] = true
+		}
+		bad := ""
+		for c := range got {
+			if !want[c] {
+				side := "lower"
+				if c.upper {
+					side = "upper"
+				}
+				bad = fmt.Sprintf("the %s is split at %s with the boundary value on the %s side, which the specification does not do (at %s)", s.what, c.c, side, p.Pos(got[c]))
+			}
+		}
+		for c := range want {
+			if _, ok := got[c]; !ok {
+				bad = fmt.Sprintf("the %s is no longer split at %s (%s)", s.what, c.c, s.meaning)
+			}
+		}
+		r.Check(bad == "", rule, key, p.Pos(f.Pos()), s.meaning+pref(bad))
+	}
+}
+
+// ruleDefaultsOnly: every store of SetDefaults into the aspect is guarded by the `field == 0` test of that same field.
+func ruleDefaultsOnly(p *Prog, r *Report) {
+	const rule = "R-DEFAULTS"
+	f := p.Func("font", "Aspect", "SetDefaults")
+	key := p.FnName(f)
+	r.Instance(rule, key)
+	n, bad := 0, ""
+	for _, b := range f.Blocks {
+		for _, in := range b.Instrs {
+			st, ok := in.(*ssa.Store)
+			if !ok {
+				continue
+			}
+			fld := fieldOf(st.Addr)
+			if fld == nil {
+				continue
+			}
+			n++
+			guarded := false
+			for _, gb := range f.Blocks {
+				iff := ifOf(gb)
+				if iff == nil {
+					continue
+				}
+				bo, ok := iff.Cond.(*ssa.BinOp)
+				if !ok || bo.Op != token.EQL || !isLoadOfField(bo.X, fld) {
+					continue
+				}
+				if c, ok := bo.Y.(*ssa.Const); !ok || !isZeroConst(c) {
+					continue
+				}
+				if guardedBy(p, f, in, guard{iff, false}) {
+					guarded = true
+				}
+			}
+			if !guarded {
+				bad = fmt.Sprintf("the store to %s at %s is not confined to the case where the field is unset (0): a specified request is altered before matching", fld.Name(), p.IPos(in))
+			}
+		}
+	}
+	r.Check(n > 0 && bad == "", rule, key, p.Pos(f.Pos()), "SetDefaults assigns a field only on the edge where that field is zero (unset)"+pref(bad))
 }
